@@ -204,7 +204,7 @@ def run(ctx):  # noqa: C901, PLR0912, PLR0915
                 tested = [a.attr for a in ast.walk(par.test) if isinstance(a, ast.Attribute)]
                 if n.value.attr not in tested:
                     qmap[n.targets[0].slice.value] = f'{n.value.attr} (guarded by {tested})'
-    st = repo.func('sdc11073.mdib.statecontainers.LocationContextStateContainer.update_from_sdc_location')
+    st = expand_aliases(repo.func('sdc11073.mdib.statecontainers.LocationContextStateContainer.update_from_sdc_location'))   #  written out
     smap = {}
     for n in walk_no_nested(st.node):
         if isinstance(n, ast.Assign) and isinstance(n.targets[0], ast.Attribute) and \
